@@ -777,7 +777,7 @@ def main():
     thorough = H.tier() == "thorough"
     chk.bounds = [
         "grids of n symbolic sorted nodes (all node positions at once), linear and logarithmic mode: quick n <= 6 with degree <= 3, thorough n <= 8 with degree <= 4 "
-        "(every (n, degree) pair with degree < n in that range)",
+        "(every (n, degree) pair with degree < n in that range) plus degree 5 on 6 and 7 nodes (basis only)",
         "evaluation points: one symbolic point per grid interval (x_k, x_{k+1}] plus every node; target grids: 1-2 symbolic targets anywhere in [x_0, x_{n-1}] "
         "(length != n) and length-n target grids equal to the nodes except at 1-2 positions where the target is symbolic between the neighbouring nodes",
         "node spacing (in the interpolation variable x or ln x) above evaluate_x's absolute tolerance 10*eps = 2.2e-15",
@@ -798,7 +798,7 @@ def main():
     ]
     chk.assumptions = ["floats in the source are read by the engine's float reading (symx.poly.tofrac)", "x_0 > 0 (log) / x_0 >= 0 (linear), nodes strictly increasing"]
     if thorough:
-        pairs = [(n, d) for n in range(2, 9) for d in range(1, 5) if d < n]
+        pairs = [(n, d) for n in range(2, 9) for d in range(1, 5) if d < n] + [(6, 5), (7, 5)]
         rein = [(n, d) for n in (3, 4, 5, 6, 7, 8) for d in (1, 2, 3, 4) if d < n]
     else:
         pairs = [(2, 1), (3, 1), (3, 2), (4, 2), (4, 3), (5, 2), (5, 3), (6, 3), (6, 2)]
